@@ -141,7 +141,7 @@ func genBatch(r *rand.Rand, mode string) (BatchCfg, *BatchScript) {
 	case "fbhold": // the fallback of a failing item is still running while the other items are processed by the other workers
 		c.C = 2 + r.Intn(2)
 		c.Items = c.C + 1 + r.Intn(4)
-		c.N, c.W, c.Fb, c.StopMode, c.Sched, c.Via, c.Shape = 1 + r.Intn(2), 0, true, false, "fbhold", "builder", "results"
+		c.N, c.W, c.Fb, c.StopMode, c.Sched, c.Via, c.Shape = 1+r.Intn(2), 0, true, false, "fbhold", "builder", "results"
 		pFail = 0
 	case "waitcancel": // an item waits between two attempts while another item's exec cancels the context
 		c.C, c.Items = 2, 2
@@ -299,6 +299,10 @@ func init() {
 			for _, line := range readLines(rp) {
 				cm := asMap(line["cfg"])
 				cfg := parseBatchCfg(cm)
+				if asStr(line["fam"]) == "batchdup" {
+					o.WriteScenario(asInt(line["scn"]), "batchdup", asStr(line["src"]), cfg.toJSON(), nil, runBatchDup(cfg))
+					continue
+				}
 				sc := scriptFromJSON(asMap(cm["script"]))
 				var exp []any
 				if asStr(line["src"]) == "tlc" {
@@ -355,6 +359,19 @@ func init() {
 		}
 		for mi, mode := range strings.Split(modes, ",") {
 			if mode == "" || count == 0 {
+				continue
+			}
+			if mode == "dup" {
+				// batches whose items are all equal to each other (the same int, string, pointer ...): n items all the same
+				for _, k := range []string{"int", "string", "nil", "ptr", "empty", "slice", "errres"} {
+					for _, cc := range []int{0, 1, 3} {
+						for _, n := range []int{2, 5} {
+							cfg := BatchCfg{Items: n, C: cc, N: 1, Shape: "results", ExSty: "r", Via: "builder", Sched: "free0", CtxKind: "cancel", DupKind: k, StopMode: (n+cc)%2 == 1}
+							id++
+							o.WriteScenario(id, "batchdup", "gen:dup", cfg.toJSON(), nil, runBatchDup(cfg))
+						}
+					}
+				}
 				continue
 			}
 			r := rand.New(rand.NewSource(seed*7919 + int64(mi)))
